@@ -31,7 +31,8 @@ AsHdr2(e) == IF Len(e.items) > 0 THEN [t |-> "lang", name |-> e.name, ln |-> Low
 Meaning2(list, isreq) ==
   LET base == H2Meaning(list, isreq, {})
       hs == [i \in 1..Len(SelectSeq(list, LAMBDA e : ~LinePseudo(e.name))) |-> AsHdr2(SelectSeq(list, LAMBDA e : ~LinePseudo(e.name))[i])]
-  IN [base EXCEPT !.ua = base.ua] @@ [lang |-> IF isreq THEN LangOf(hs, {}) ELSE <<>>]
+      valued == SelectSeq(hs, LAMBDA h : ~(IsName(h, "accept-language") /\ h.t = "plain" /\ h.value = ""))     \* occurrences without a value say nothing
+  IN [base EXCEPT !.ua = base.ua] @@ [lang |-> IF isreq THEN LangOf(valued, {}) ELSE <<>>]
 
 ReqPseudo == <<E(":method", "GET"), E(":scheme", "https"), E(":path", "/index.html"), E(":authority", "example.com")>>
 ReqPool == <<E("user-agent", "curl/8.0"), E("accept", "*/*"), E("cache-control", "no-cache"), E("cookie", "a=1; b=2"), E("x-custom", "v1"),
@@ -137,6 +138,13 @@ SpecialCases ==
       r \in {1, 2, 4, 6}, n \in {"referer", "cookie", "user-agent", "accept-encoding"}, v \in {"", "a=1", "token=YWJjZA==; prefs=lang=en&tz=utc; flag"},
       tail \in {<<Fld(E("x-last", "1"), 4)>>, <<Fld(E("referer", ""), 1), Fld(E("x-last", "1"), 6)>>, <<Fld(E("cookie", ""), 4), Fld(E("referer", "https://r.example/"), 2)>>}}
 
+\* ---- repeated: user-agent / accept-language sent twice, one occurrence without a value (before or after the one that has it),
+\* other fields between them
+RepeatedCases ==
+  {Vec(TRUE, Std, Block([i \in 1..4 |-> Fld(ReqPseudo[i], 1)] \o (IF emptyfirst THEN <<Fld(E(n, ""), r)>> ELSE <<>>) \o <<Fld(IF n = "user-agent" THEN E(n, "Mozilla/5.0 demo") ELSE ELang(<<It("de", <<"0.9">>), It("en", <<>>)>>), 2),
+                                                                      Fld(E("accept", "*/*"), 4)>> \o (IF emptyfirst THEN <<>> ELSE <<Fld(E(n, ""), r)>>) \o <<Fld(E("x-last", "1"), 6)>>), Plain, <<>>, "repeated") :
+      n \in {"user-agent", "accept-language"}, r \in {2, 4, 6}, emptyfirst \in BOOLEAN}
+
 \* ---- extended CONNECT (RFC 8441): a further colon-named field among the pseudo-headers, in every representation
 ConnectCases ==
   {Vec(TRUE, Std, Block(<<Fld(E(":method", "CONNECT"), 3), Fld(E(":protocol", "websocket"), r), Fld(E(":scheme", "https"), 1), Fld(E(":path", "/chat"), 2), Fld(E(":authority", "ws.example"), 2)>>
@@ -144,7 +152,7 @@ ConnectCases ==
       r \in {2, 3, 4, 6, 8}, r2 \in {2, 5}, tail \in {<<>>, <<Fld(E(":protocol", "websocket"), 2)>>}}
 
 \* TLC evaluates every constant definition at start-up, so all families are emitted by one run
-Cases == RepCases \cup FramingCases \cup PrefixCases \cup DynCases \cup DynSettingsCases \cup RespCases \cup ValueCases \cup SpecialCases \cup RespDynCases \cup ConnectCases
+Cases == RepCases \cup FramingCases \cup PrefixCases \cup DynCases \cup DynSettingsCases \cup RespCases \cup ValueCases \cup SpecialCases \cup RespDynCases \cup ConnectCases \cup RepeatedCases
 CaseSeq == SetToSeq(Cases)
 Emit(i) == PrintT("REPLAY " \o ToJson([i |-> i] @@ CaseSeq[i]))
 EmitMax(j) == PrintT("REPLAY " \o ToJson([i |-> 100000 + j] @@ MaxFrameAt(j)))
